@@ -131,3 +131,238 @@ def _(c):
     c.param("self", "node").param("child", "data").param("kind", "none", "kind").param("before", "none", "bool", "int", "node").param("deep", "none").param("data_id", "none", "id").param("node_id", "none", "id")
     c.families = ("typed",)
     add_child_contract(c, typed=True)
+
+
+# ------------------------------------------------------------------ metadata API (C04)
+def meta_frame(x):
+    """only self._meta (and the content of self's meta dict / a fresh dict) may change."""
+    h0, h, s = x.h0, x.h, x.a.self
+    m0 = h0._meta(s)
+    d, k = L.fresh("d", L.DRef), L.fresh("k", L.Val)
+    cs = [fields_same_except(x, NODE_FIELDS + TREE_FIELDS, [s]), fields_same_except(x, tuple(f for f in NODE_FIELDS if f != "_meta"), []), lists_same_except(x, [])]
+    for comp in ("ddom", "dval", "dref", "dlst"):
+        if not z3.eq(h0.f(comp), h.f(comp)):
+            cs.append(ForAll([d, k], Implies(And(h0.dalloc(d), d != m0), h.f(comp)(d, k) == h0.f(comp)(d, k)), patterns=[h.f(comp)(d, k)]))
+    if not z3.eq(h0.dcard, h.dcard):
+        cs.append(ForAll([d], Implies(And(h0.dalloc(d), d != m0), h.dcard(d) == h0.dcard(d)), patterns=[h.dcard(d)]))
+    return And(*cs)
+
+
+def meta_has(h, s, k):
+    return And(h._meta(s) != DNONE, h.ddom(h._meta(s), k))
+
+
+def meta_pre(c):
+    c.requires("self is an allocated node whose meta dict (if any) is allocated", lambda x: And(x.h0.alloc(x.a.self), Implies(x.h0._meta(x.a.self) != DNONE, And(x.h0.dalloc(x.h0._meta(x.a.self)), x.h0.dcard(x.h0._meta(x.a.self)) >= 1, meta_card_sound(x.h0, x.h0._meta(x.a.self))))))
+
+
+def meta_card_sound(h, m):
+    """dict contract: len(d) == 0 iff no key (the only cardinality fact the meta API relies on)."""
+    k = L.fresh("k", L.Val)
+    return ForAll([k], Implies(h.ddom(m, k), h.dcard(m) >= 1), patterns=[h.ddom(m, k)])
+
+
+@contract(NQ + "get_meta", props=("C04",))
+def _(c):
+    c.param("self", "node").param("key", "data").param("default", "none", "data")
+    c.result_tag = "val"
+    c.pure()
+    meta_pre(c)
+
+    def post(x):
+        h0, s = x.h0, x.a.self
+        dflt = x.a.default if x.a.tag("default") != "none" else VNONE
+        exp = If(meta_has(h0, s, x.a.key), h0.dval(h0._meta(s), x.a.key), dflt)
+        return (exp == VNONE) if x.res.tag == "none" else (x.r == exp)
+
+    c.ensures("result == meta[key] if present else default", post)
+
+
+@contract(NQ + "clear_meta", props=("C04",))
+def _(c):
+    c.param("self", "node").param("key", "none", "data")
+    c.result_tag = "none"
+    c.modifies("_meta", "ddom", "dcard")
+    meta_pre(c)
+
+    def post(x):
+        h0, h, s = x.h0, x.h, x.a.self
+        m0 = h0._meta(s)
+        if x.a.tag("key") == "none":
+            return And(h._meta(s) == DNONE, meta_frame(x))
+        k = L.fresh("k", L.Val)
+        removed = And(ForAll([k], h.ddom(m0, k) == And(h0.ddom(m0, k), k != x.a.key), patterns=[h.ddom(m0, k)]),
+                      h.dcard(m0) == h0.dcard(m0) - If(h0.ddom(m0, x.a.key), 1, 0))
+        return And(meta_frame(x), If(m0 == DNONE, h._meta(s) == DNONE, And(removed, h._meta(s) == If(h.dcard(m0) == 0, DNONE, m0))))
+
+    c.ensures("entry (or everything) removed; meta is None when empty", post)
+
+
+@contract(NQ + "set_meta", props=("C04",))
+def _(c):
+    c.param("self", "node").param("key", "data").param("value", "none", "data")
+    c.result_tag = "none"
+    c.modifies("_meta", "ddom", "dval", "dcard", "dalloc")
+    meta_pre(c)
+
+    def post(x):
+        h0, h, s = x.h0, x.h, x.a.self
+        m0 = h0._meta(s)
+        k = L.fresh("k", L.Val)
+        if x.a.tag("value") == "none":  # == clear_meta(key)
+            removed = And(ForAll([k], h.ddom(m0, k) == And(h0.ddom(m0, k), k != x.a.key), patterns=[h.ddom(m0, k)]), h.dcard(m0) == h0.dcard(m0) - If(h0.ddom(m0, x.a.key), 1, 0))
+            return And(meta_frame(x), If(m0 == DNONE, h._meta(s) == DNONE, And(removed, h._meta(s) == If(h.dcard(m0) == 0, DNONE, m0))))
+        m = h._meta(s)
+        return And(meta_frame(x), m != DNONE, If(m0 == DNONE, Not(h0.dalloc(m)), m == m0),
+                   h.ddom(m, x.a.key), h.dval(m, x.a.key) == x.a.value,
+                   ForAll([k], Implies(k != x.a.key, And(h.ddom(m, k) == If(m0 == DNONE, False, h0.ddom(m0, k)), Implies(h.ddom(m, k), h.dval(m, k) == h0.dval(m0, k)))), patterns=[h.ddom(m, k)]))
+
+    c.ensures("meta[key] == value afterwards (value None removes), other entries untouched", post)
+
+
+@contract(NQ + "update_meta", props=("C04",))
+def _(c):
+    c.param("self", "node").param("values", "dref").param("replace", "true", "false")
+    c.result_tag = "none"
+    c.modifies("_meta", "ddom", "dval", "dcard", "dalloc")
+    meta_pre(c)
+    c.requires("values is a dict other than the node's own meta dict", lambda x: And(x.a.values != x.h0._meta(x.a.self), meta_card_sound(x.h0, x.a.values)))
+
+    def post(x):
+        h0, h, s, v = x.h0, x.h, x.a.self, x.a.values
+        m0, m = h0._meta(s), h._meta(s)
+        k = L.fresh("k", L.Val)
+        fresh_copy = And(Not(h0.dalloc(m)), ForAll([k], And(h.ddom(m, k) == h0.ddom(v, k), Implies(h0.ddom(v, k), h.dval(m, k) == h0.dval(v, k))), patterns=[h.ddom(m, k)]))
+        merged = And(m == m0, ForAll([k], And(h.ddom(m, k) == Or(h0.ddom(m0, k), h0.ddom(v, k)), Implies(h0.ddom(v, k), h.dval(m, k) == h0.dval(v, k)), Implies(And(h0.ddom(m0, k), Not(h0.ddom(v, k))), h.dval(m, k) == h0.dval(m0, k))), patterns=[h.ddom(m, k)]))
+        replace = z3.is_true(x.a.replace)
+        new_case = If(h0.dcard(v) == 0, m == DNONE, And(m != DNONE, fresh_copy))
+        body = new_case if replace else If(m0 == DNONE, new_case, And(m != DNONE, merged))
+        # the argument dict itself is never modified
+        arg_same = ForAll([k], And(h.ddom(v, k) == h0.ddom(v, k), h.dval(v, k) == h0.dval(v, k)), patterns=[h.ddom(v, k)])
+        return And(meta_frame_upd(x), body, arg_same)
+
+    c.ensures("meta == values (replace) or meta | values; None when empty; argument untouched", post)
+
+
+def meta_frame_upd(x):
+    h0, h, s = x.h0, x.h, x.a.self
+    m0 = h0._meta(s)
+    d, k = L.fresh("d", L.DRef), L.fresh("k", L.Val)
+    cs = [fields_same_except(x, NODE_FIELDS + TREE_FIELDS, [s]), fields_same_except(x, tuple(f for f in NODE_FIELDS if f != "_meta"), []), lists_same_except(x, [])]
+    for comp in ("ddom", "dval"):
+        if not z3.eq(h0.f(comp), h.f(comp)):
+            cs.append(ForAll([d, k], Implies(And(h0.dalloc(d), d != m0), h.f(comp)(d, k) == h0.f(comp)(d, k)), patterns=[h.f(comp)(d, k)]))
+    return And(*cs)
+
+
+# ------------------------------------------------------------------ move_to (C01 C03 C04 C13)
+def target_of(x, h):
+    """the node that becomes the new parent: new_parent itself, or the root of the tree passed."""
+    np_ = x.a.sv("new_parent")
+    return h._root(np_.z) if np_.cls == "Tree" else np_.z
+
+
+def in_subtree(h, y, s):
+    """y == s or y is a proper descendant of s."""
+    return Or(y == s, L.is_desc(h, y, s))
+
+
+@contract(NQ + "move_to", props=("C01", "C02", "C03", "C04", "C13"))
+def _(c):
+    c.param("self", "node").param("new_parent", "node", "othertree").param("before", "none", "bool", "int", "node")
+    c.families = ("plain",)
+    c.result_tag = "none"
+    c.modifies("_parent", "_children", "llen", "litem", "lalloc", "pos", "rank")
+    c.uses_lemmas = ("lemma.lemma_desc_rank",)
+    c.requires("wf, self is a member", lambda x: And(wf0(x), self_member(x)))
+    c.requires("the target belongs to a well-formed tree", lambda x: (x.h0.inP(x.h0._tree(x.a.new_parent), x.a.new_parent) if x.a.sv("new_parent").cls != "Tree" else z3.BoolVal(True)))
+    c.requires("a tree argument is well-formed", lambda x: wf(x.h0, x.a.new_parent) if x.a.sv("new_parent").cls == "Tree" else wf(x.h0, x.h0._tree(x.a.new_parent)))
+    c.requires("a `before` node belongs to the same tree", lambda x: x.h0.mem(x.T, x.a.before) if x.a.tag("before") == "ref" else True)
+
+    def q0(x):
+        return target_of(x, x.h0)
+
+    def other_tree(x):
+        np_ = x.a.sv("new_parent")
+        return (np_.z != x.T) if np_.cls == "Tree" else (x.h0._tree(np_.z) != x.T)
+
+    def below_itself(x):
+        return in_subtree(x.h0, q0(x), x.a.self)
+
+    def clash(x):
+        h0, s, q = x.h0, x.a.self, q0(x)
+        return And(q != h0._parent(s), ex_int(0, h0.clen(q), lambda i: h0._data_id(h0.child(q, i)) == h0._data_id(s)))
+
+    def bad_before(x):
+        return (x.h0._parent(x.a.before) != q0(x)) if x.a.tag("before") == "ref" else z3.BoolVal(False)
+
+    def len_after_removal(x):
+        h0, s, q = x.h0, x.a.self, q0(x)
+        return h0.clen(q) - If(q == h0._parent(s), 1, 0)
+
+    c.requires("an int position is within 0..len of the target list without self", lambda x: And(0 <= x.a.before, x.a.before <= len_after_removal(x)) if x.a.tag("before") == "int" else True)
+
+    unchanged = lambda x: And(obs_unchanged(x), wf1(x))  # noqa: E731
+    c.raises("NotImplementedError", when=other_tree, ensures=unchanged, props=("C13",))
+    c.raises("ValueError", when=lambda x: And(Not(other_tree(x)), Or(below_itself(x), And(Not(clash(x)), bad_before(x)))), ensures=unchanged, props=("C01", "C13"))
+    c.raises("UniqueConstraintError", when=lambda x: And(Not(other_tree(x)), Not(below_itself(x)), clash(x)), ensures=unchanged, props=("C03", "C13"))
+
+    def pos_after_removal(x, o):
+        h0, s = x.h0, x.a.self
+        return If(And(o != s, h0._parent(o) == h0._parent(s), h0.pos(o) > h0.pos(s)), h0.pos(o) - 1, h0.pos(o))
+
+    def idx(x):
+        t = x.a.tag("before")
+        if t == "none":
+            return len_after_removal(x)
+        if t == "bool":
+            return If(x.a.before, 0, len_after_removal(x))
+        if t == "int":
+            return x.a.before
+        return pos_after_removal(x, x.a.before)
+
+    def noop(x):
+        return And(x.a.before == x.a.self) if x.a.tag("before") == "ref" else z3.BoolVal(False)
+
+    def post(x):
+        h0, h, s = x.h0, x.h, x.a.self
+        T, q, op = x.T, q0(x), x.h0._parent(x.a.self)
+        me = h0.pos(s)
+        i = L.fresh("i", L.I)
+        o = L.fresh("o", L.Ref)
+        k = idx(x)
+        n_op = h0.clen(op)
+        # children of the old parent (when it is not also the new one): old list without self
+        removed = And(h.clen(op) == n_op - 1,
+                      ForAll([i], Implies(And(0 <= i, i < n_op - 1), h.child(op, i) == If(i < me, h0.child(op, i), h0.child(op, i + 1))), patterns=[h.litem(h._children(op), i)]))
+        nq = len_after_removal(x)
+        old_q = lambda j: If(q == op, If(j < me, h0.child(q, j), h0.child(q, j + 1)), h0.child(q, j))  # noqa: E731  target list without self
+        inserted_q = And(h.clen(q) == nq + 1, h.child(q, k) == s,
+                         ForAll([i], Implies(And(0 <= i, i < k), h.child(q, i) == old_q(i)), patterns=[h.litem(h._children(q), i)]),
+                         ForAll([i], Implies(And(k < i, i <= nq), h.child(q, i) == old_q(i - 1)), patterns=[h.litem(h._children(q), i)]))
+        moved = And(
+            wf1(x),
+            h._parent(s) == q,
+            Implies(q != op, removed), inserted_q,
+            other_childlists_same(x, T, op, q),
+            ForAll([o], Implies(o != s, h._parent(o) == h0._parent(o)), patterns=[h._parent(o)]),
+            ForAll([o], Implies(And(o != op, o != q), h._children(o) == h0._children(o)), patterns=[h._children(o)]),
+        )
+        return If(noop(x), And(obs_unchanged(x), wf1(x)), moved)
+
+    c.may_raise("AssertionError", ensures=unchanged, props=("C13",), name="a tree of another class as target")
+    c.ensures("self is the child of the target at the documented position, removed from its old parent; wf; frame", post)
+
+    def hint_index_of(x):
+        # the list searched is the target's list after self was taken out: `before` sits at its shifted position
+        if x.call_args.tag("node") != "ref" or x.a.tag("before") != "ref":
+            return z3.BoolVal(True)
+        lst = x.call_args.node_list
+        return If(x.call_args.node == x.a.before, x.h.litem(lst, pos_after_removal(x, x.a.before)) == x.a.before, True)
+
+    c.call_hints["_index_of"] = hint_index_of
+    c.ghost_exit["pos"] = lambda x, o: If(noop(x), x.h0.pos(o), If(o == x.a.self, idx(x), If(And(o != x.a.self, x.h0._parent(o) == q0(x), x.h0.mem(x.T, o), pos_after_removal(x, o) >= idx(x)), pos_after_removal(x, o) + 1, pos_after_removal(x, o))))
+    c.ghost_exit["rank"] = lambda x, o: If(And(Not(noop(x)), in_subtree(x.h0, o, x.a.self), x.h0.mem(x.T, o)), x.h0.rank(o) - x.h0.rank(x.a.self) + x.h0.rank(q0(x)) + 1, x.h0.rank(o))
+    # loop 1: `for n in new_parent._children or ()` -- no child of the target carries self's data_id
+    c.loop(1).invariant = lambda x: fa_int(0, x.k, lambda j: x.h0._data_id(x.h0.child(target_of(x, x.h0), j)) != x.h0._data_id(x.a.self), lambda j: x.h0.litem(x.h0._children(target_of(x, x.h0)), j))
+    c.loop(1).modifies = ()
